@@ -452,6 +452,15 @@ func (s *Set) Value(_ context.Context, t *dials.Type) (reflect.Value, error) {
 			return
 		}
 
+		if fval.Kind() == reflect.Ptr && !fval.IsNil() && ffield.Kind() == reflect.Ptr &&
+			fval.Type().Elem().ConvertibleTo(ffield.Type().Elem()) {
+			// the flag's getter returned a pointer to the builtin type
+			// (*complex128) and the field is a user-defined named version of it
+			ptrVal.Elem().Set(fval.Elem().Convert(ffield.Type().Elem()))
+			ffield.Set(ptrVal)
+			return
+		}
+
 		if willOverflow(fval, ptrVal.Elem()) {
 			setErr = fmt.Errorf("value for flag %q (%s) would overflow type %s",
 				f.Name, f.Value.String(), ptrVal.Type().Elem())
